@@ -179,9 +179,16 @@ def lifeCheck (cfg : Cfg) (w : Worker) : Bool :=
 /-- every worker ever created has finished -/
 def AllExited (s : St) : Prop := ∀ w ∈ s.workers, w.pc = .exited
 
+/-- the worker has left its loop for good: it has exited, or (`Cfg.joinTimeout`) it has posted its wid to the replace queue
+and has only `end()` left to run -/
+def gone : WPc → Bool
+  | .exited | .ending => true
+  | _ => false
+
 def lifeCheckAll (s : St) : List String :=
   (s.workers.filter (fun w => !lifeCheck s.cfg w)).map (fun w => s!"life{w.wid}") ++
-  (if s.cpc == .done && s.workers.any (fun w => w.pc != .exited) then ["exit_joins_all"] else []) ++
+  (if s.cpc == .done && !s.cfg.joinTimeout && s.workers.any (fun w => w.pc != .exited) then ["exit_joins_all"] else []) ++
+  (if s.workers.any (fun w => w.pc == .ending) && !s.cfg.joinTimeout then ["ending_only_joinTimeout"] else []) ++
   (if s.cfg.waitReady && (match s.cpc with | .enterStart _ | .readyWait _ => false | _ => true) &&
       s.workers.any (fun w => w.wid < s.cfg.nWorkers && !w.log.contains .begin) then ["ready_after_begin"] else [])
 
@@ -226,6 +233,8 @@ def liveCheck (s : St) : List String :=
   let bad (name : String) (b : Bool) : List String := if b then [] else [name]
   let cIn := match s.cpc with | .qsize2 | .getNowait | .lockRel => true | _ => false
   let started (wid : Nat) := match wpc s wid with | some .notStarted => false | some _ => true | none => false
+  -- left its loop for good (`gone`): exited, or (`Cfg.joinTimeout`) retired with only `end()` left
+  let goneW (wid : Nat) := match wpc s wid with | some p => gone p | none => false
   -- L1 lock discipline
   bad "L1c" ((s.lock == some .c) == cIn) ++
   bad "L1w" (s.workers.all (fun w => (s.lock == some (.w w.wid)) == (w.pc == .putNowait || w.pc == .lockRel))) ++
@@ -238,7 +247,7 @@ def liveCheck (s : St) : List String :=
                  match s.procs[j]? with | some wid => (started wid) == decide (j < i) | none => true)
              | _ => true) ++
   -- L3 a listed worker that has exited: plain pool only in the exit phase; factory: its id waits for / is at the replace thread
-  bad "L3" (s.procs.all (fun wid => !(wpc s wid == some .exited) || exitPhase s ||
+  bad "L3" (s.procs.all (fun wid => !(goneW wid) || exitPhase s ||
             (s.cfg.factory && (s.replQ.contains (some wid) || s.rpc == .join wid)))) ++
   bad "L3n" (exitPhase s || !(s.workQ.contains none)) ++
   -- L4 the replace thread lives exactly from its start to the consumption of its stop token
@@ -261,7 +270,7 @@ def liveCheck (s : St) : List String :=
   bad "L8a" (!exitPhase s || (chunksOf s.workQ == [] && !s.fAlive && !s.rAlive)) ++
   bad "L8b" (match s.cpc with
              | .exitJoin _ | .done =>
-               decide (noneCount s.workQ + (s.procs.filter (fun wid => wpc s wid == some .exited)).length ≥ s.procs.length)
+               decide (noneCount s.workQ + (s.procs.filter goneW).length ≥ s.procs.length)
              | _ => true) ++
   -- L9 a worker that is neither started nor exited holds nothing and waits at a well-defined pc
   bad "L9" (s.workers.all (fun w => (w.held.isSome == (w.pc == .lockAcq || w.pc == .putNowait || w.pc == .putBlock ||
@@ -270,7 +279,7 @@ def liveCheck (s : St) : List String :=
   bad "L10" (!(s.fpc == .runWait || s.fpc == .stopIsSet) || !s.fStop) ++
   -- clauses added for the proof (`LiveInv` in Proofs/PoolLiveAux1.lean)
   (let pend := (match s.rpc with | .join wid => [wid] | _ => []) ++ s.replQ.filterMap id
-   let liveCnt := s.workers.countP (fun w => w.pc != .exited)
+   let liveCnt := s.workers.countP (fun w => !gone w.pc)
    let stopsSent := match s.cpc with | .exitPut i => i | .exitJoin _ | .done => s.procs.length | _ => 0
    let rCall := match s.cpc with
      | .fInitSet | .wrSending | .wrDataCnt | .fStart | .fStopSet | .fJoin | .rPutNone | .midReady _ _ => true
@@ -294,7 +303,7 @@ def liveCheck (s : St) : List String :=
    bad "M_retireF" (s.workers.all (fun w => w.pc != .retire || s.cfg.factory)) ++
    bad "M_rLive" (!s.cfg.factory || !rCall || s.rAlive) ++
    bad "M_tokR" (noneCount s.replQ == (if (s.cpc == .rStopSet || s.cpc == .rJoin) && s.rAlive then 1 else 0)) ++
-   bad "M_exitedL" (s.workers.all (fun w => w.pc != .exited || !s.procs.contains w.wid || exitPhase s ||
+   bad "M_exitedL" (s.workers.all (fun w => !gone w.pc || !s.procs.contains w.wid || exitPhase s ||
      (s.cfg.factory && pend.contains w.wid))) ++
    bad "M_curSome" (!setup || s.cur.isSome) ++
    bad "M_curNone" (!exitPhase s || s.cur.isNone) ++
